@@ -14,3 +14,9 @@ package docx
 //@   property C15
 //@   flags callsites
 //@   callsite strings.Repeat(s, count) requires level_1_to_6: s == "#" ==> 1 <= count && count <= 6
+
+// ---- C15: everything written into a pipe table is a structural literal or escaped cell text ----
+//@ func (*ParsedTable) ToMarkdown
+//@   property C15
+//@   flags callsites
+//@   callsite WriteString(s) requires cell_or_structure: s == "|" || s == " " || s == " |" || s == "\n" || s == " --- |" || (forall k int :: {s[k]} 0 <= k && k < len(s) ==> s[k] != 10 && (s[k] == '|' ==> k >= 1 && s[k-1] == 92))
